@@ -52,7 +52,7 @@ PROPS = {
             'RefCell borrow panics (erased by R5)',
         ]),
     'C11': dict(
-        units=['observer', 'edges'], level='other',
+        units=['observer', 'edges', 'nodepred', 'heightwalk'], level='other',
         replays=['c11_handler_count.incrate.rs'],
         uncovered=[
             'only two clauses are under contract: the per-node handler count, and the per-call effect of add_parent / remove_parent / expert_swap_children_except_in_kind on the index arrays of the nodes involved (an edge is recorded, removed or re-slotted symmetrically on both ends); that these calls are made for the right nodes, heights, recompute-heap membership and stats().necessary are relations across the graph and are not under contract (pinned only by a few statement-order frames)',
